@@ -102,7 +102,7 @@ def adapter_seqs(ad):
 
 def make_read(rng, k, ads, C, side=1):
     """A read in which every configured stage has something to do (most of the time)."""
-    body = "".join(rng.choice("ACGT") for _ in range(rng.randint(0, 22)))
+    body = "".join(rng.choice("ACGT") for _ in range(rng.randint(0, 6) if (C.get("_short") and rng.random() < 0.6) else rng.randint(0, 22)))
     if rng.random() < 0.12:
         body = body.lower() if rng.random() < 0.5 else "".join(rng.choice((c, c.lower())) for c in body)
     seq = body
@@ -123,6 +123,8 @@ def make_read(rng, k, ads, C, side=1):
             fo = mutate(rng, f, rng.choice((0, 0, 1))) if rng.random() < 0.8 else ""
             bo = mutate(rng, b, rng.choice((0, 0, 1)))[: rng.randint(3, len(b))] if rng.random() < 0.8 else ""
             seq = fo + body + bo + "".join(rng.choice("ACGT") for _ in range(rng.choice((0, 0, 3))))
+            if rng.random() < 0.15:
+                seq = f                      # the 5' part is the whole read: nothing is left for the 3' part
         else:
             occ = mutate(rng, parts[0], rng.choice((0, 0, 0, 1, 2)))
             opt = ad["opt"]
@@ -193,20 +195,27 @@ SCENARIOS = {
     "C16": [dict(revcomp=True, cores=2, buffer_size=300, n_reads=16), dict(revcomp=True, cores=3, buffer_size=250, n_reads=18, paired=True),
             dict(revcomp=True, paired=True), dict(revcomp=True, times=2), dict(revcomp=True, error_rate=0.7, overlap=1),
             dict(revcomp=True, action="mask"), dict(revcomp=True, paired=True, action="lowercase"), dict(revcomp=True, same_family=True, n_ads=2)],
-    "C05": [dict(paired=True, pairads=True), dict(paired=True, interleaved=True, only_r2=True, untrimout=True), dict(paired=True, interleaved=True, untrimout=True),
+    "C05": [dict(paired=True, pairads=True), dict(paired=True, pairads=True, same_r1=True, demux="normal", n_ads=2),
+            dict(paired=True, pairads=True, same_r1=True, n_ads=3, rename="{id} a={r1.adapter_name} b={r2.adapter_name}"),
+            dict(paired=True, pairads=True, same_r1=True, n_ads=2, rename="{id} a={r1.adapter_name} b={r2.adapter_name}", info=True), dict(paired=True, interleaved=True, only_r2=True, untrimout=True), dict(paired=True, interleaved=True, untrimout=True),
             dict(paired=True, interleaved=True, minlen="8", tooshortout=True), dict(paired=True, interleaved=True, only_r1=True, untrimout=True), dict(paired=True, pairfilter="both", minlen="8:"), dict(paired=True, pairfilter="first", maxlen=":14"),
             dict(paired=True, only_r2=True, duntrim=True), dict(paired=True, only_r2=True, untrimout=True), dict(paired=True, pairfilter="both", duntrim=True),
             dict(paired=True, pairads=True, same_r1=True, demux="normal", n_ads=2), dict(paired=True, pairads=True, same_r1=True, n_ads=3, rename="{id} a={r1.adapter_name} b={r2.adapter_name}"), dict(paired=True, demux="combi"), dict(paired=True, untrimout=True, pairfilter="both")],
     "C11": [dict(maxee="1", maxaer="0.05"), dict(paired=True, pairfilter="both", duntrim=True), dict(paired=True, only_r2=True, duntrim=True),
             dict(action="lowercase", maxn=(1, 1, "1")), dict(minlen="8", maxlen="14", maxn=(0, 1, "0"), casava=True),
             dict(paired=True, pairfilter="both", dtrim=True), dict(untrimout=True, minlen="5"), dict(paired=True, pairfilter="first", untrimout=True)],
-    "C15": [dict(demux="normal", times=2, n_ads=3), dict(demux="combi", paired=True, times=2), dict(demux="normal", casava=True),
+    "C15": [dict(demux="normal", dupname=True, n_ads=3), dict(demux="normal", dupname=True, n_ads=2, paired=True),
+            dict(demux="normal", times=2, n_ads=3), dict(demux="combi", paired=True, times=2), dict(demux="normal", casava=True),
             dict(demux="normal", paired=True, untrimout=True), dict(demux="normal", duntrim=True), dict(demux="combi", paired=True, duntrim=True),
             dict(demux="normal", paired=True, casava=True, minlen="6")],
     "C04": [dict(polya=True, cores=2, buffer_size=250, n_reads=18), dict(polya=True, paired=True, cores=3, buffer_size=400, n_reads=16),
             dict(revcomp=True, cores=2, buffer_size=300, n_reads=16), dict(paired=True, info=True), dict(times=2, n_ads=3), dict(times=3, paired=True), dict(demux="combi", paired=True, duntrim=True),
             dict(maxaer="0.05"), dict(polya=True), dict(paired=True, polya=True, q="10")],
-    "C10": [dict(paired=True, len1=8, len2=0), dict(paired=True, len1=10), dict(nextseq=20, q="20"), dict(nextseq=20, q="10", paired=True, Q="20"),
+    "C10": [dict(cut1=[4, -3], rename="{id} cp={cut_prefix} cs={cut_suffix}", short_reads=True),
+            dict(cut1=[-3, 4], rename="{id} cp={cut_prefix} cs={cut_suffix} {comment}", short_reads=True),
+            dict(paired=True, cut1=[2, -2], cut2=[-3, 2], rename="{id} {r1.cut_prefix}.{r1.cut_suffix}|{r2.cut_prefix}.{r2.cut_suffix}", short_reads=True),
+            dict(lengthtag="length=", rename="{header} x", cut1=[3]), dict(strip=[".x"], rename="{header}|{id}", trimn=True),
+            dict(paired=True, len1=8, len2=0), dict(paired=True, len1=10), dict(nextseq=20, q="20"), dict(nextseq=20, q="10", paired=True, Q="20"),
             dict(cut1=[30], lengthtag="length="), dict(polya=True, len1=10, trimn=True), dict(cut1=[3, -2], q="10,10")],
     "C20": [dict(linked=True, revcomp=True, cores=2, buffer_size=300, n_reads=16), dict(linked=True, revcomp=True, cores=3, buffer_size=250, n_reads=18),
             dict(revcomp=True, times=3, n_ads=1, repeat=True), dict(revcomp=True, times=2, n_ads=2, repeat=True), dict(times=3, n_ads=1, repeat=True),
@@ -280,6 +289,10 @@ def _random_config(rng, focus, S):
         opt = rng.choice(("a", "a", "g", "b"))
         ads = [dict(opt=opt, seq=base, restr=None, name=None), dict(opt=opt, seq=mutate(rng, base, 1), restr=None, name=None)] + \
               ([dict(opt=opt, seq=base[:-2], restr=None, name=None)] if n_ads > 2 else [])
+    if S.get("dupname") and len(ads) >= 2:
+        for a in ads[1:2]:
+            a["name"] = ads[0].get("name") or NAMES[0]
+        ads[0]["name"] = ads[1]["name"]
     C["ads1"] = [fix_linked_render(a) for a in ads]
     if C["paired"]:
         want2 = demux == "combi" or p(0.6) or bool(S.get("pairads") or S.get("only_r2"))
@@ -322,6 +335,8 @@ def _random_config(rng, focus, S):
             C["_tie"] = True
         if S.get("repeat"):
             C["_repeat"] = True
+    if S.get("short_reads"):
+        C["_short"] = True
     # post-adapter modifications
     if p(0.4 if heavy else 0.1):
         C["polya"] = True
@@ -356,7 +371,7 @@ def _random_config(rng, focus, S):
     if fastq and p(0.3 if heavy else 0.08):
         C["zerocap"] = True
     # filters
-    filt = f in ("C11", "C04", "C05", "C15")
+    filt = f in ("C11", "C04", "C05") or (f == "C15" and p(0.3))
     if p(0.7 if filt else 0.15):
         v = rng.choice((0, 1, 5, 8, 12, 15))
         C["minlen"] = (str(v) if not C["paired"] or p(0.5) else rng.choice((f"{v}:", f":{v}", f"{v}:{max(0, v - 3)}")))
@@ -401,7 +416,7 @@ def _random_config(rng, focus, S):
     if S.get("only_r1") and C["paired"]:
         C["ads2"] = []
     for k in ("minlen", "maxlen", "maxn", "maxee", "maxaer", "casava", "pairfilter", "polya", "q", "Q", "nextseq", "cut1", "len1", "len2",
-              "lengthtag", "trimn", "info", "interleaved", "tooshortout", "rename", "cores", "buffer_size", "n_reads"):
+              "lengthtag", "trimn", "info", "interleaved", "tooshortout", "rename", "cores", "buffer_size", "n_reads", "cut2", "strip"):
         if k in S:
             C[k] = S[k]
     if has_ads and demux == "none" and any(k in S for k in ("duntrim", "dtrim", "untrimout")):
@@ -497,6 +512,7 @@ def drive(ctx, focus, n_runs, want, reads_per_run=(5, 9), config_hook=None, extr
     ctx.extra["runs_rejected_by_cli"] = len(failed)
     ctx.extra["reads"] = sum(len(e["reads"]) for e in events)
     ctx.extra["paired_runs"] = sum(1 for e in events if e["cfg"]["paired"])
+    ctx.extra["reads_written_to_a_file"] = sum(1 for e in events for rd in e["reads"] if rd["obs"]["dest"] != "none")
     ctx.extra["runs_with_matches"] = sum(1 for e in events if e["report"]["with1"] > 0 or e["report"]["with2"] > 0)
     return events, out, failed
 
